@@ -137,7 +137,7 @@ func doubleSpecials() []float64 {
 func init() {
 	core.Register(&core.Prop{
 		ID: "C08", Level: "model_checking",
-		Rule: "Exhaustive enumeration of doubles through the real encoder/decoder against R1's shortest exact form and the number itself: (thorough) every one of the 2^32 float32 bit patterns widened to float64; every float32 pattern whose low 16 bits are in {0000,0001,7fff,8000,ffff}; every integer in [-70000,70000]; +-2^k and both neighbours for k in -1074..1023; every float64 whose bytes are all in {00,01,7f,80,ff}; NaNs, infinities, zeros, subnormal extremes; and a reduced set at the non-top positions (float64 field, float32 field, []float64, []float32, map value). Distinct by construction; every case non-trivial.",
+		Rule:        "Exhaustive enumeration of doubles through the real encoder/decoder against R1's shortest exact form and the number itself: (thorough) every one of the 2^32 float32 bit patterns widened to float64; every float32 pattern whose low 16 bits are in {0000,0001,7fff,8000,ffff}; every integer in [-70000,70000]; +-2^k and both neighbours for k in -1074..1023; every float64 whose bytes are all in {00,01,7f,80,ff}; NaNs, infinities, zeros, subnormal extremes; and a reduced set at the non-top positions (float64 field, float32 field, []float64, []float32, map value). Distinct by construction; every case non-trivial.",
 		Assumptions: []string{"float64 is exhaustive only over the structured families, not over 2^64", "x5f is read as a 32-bit float, as the specification text says"},
 		Units: func(tier string) []core.Unit {
 			var us []core.Unit
